@@ -47,6 +47,20 @@ Proof.
   destruct r as [|c r']; [reflexivity|]. apply IH. exact L.
 Qed.
 
+Lemma trim_nul_pad n a : (length a <= n)%nat -> last a x01 <> x00 -> trim_nul (pad_to n a) = a.
+Proof.
+  intros Le L. unfold pad_to. rewrite firstn_all2 by lia. rewrite trim_nul_app_zeros. now apply trim_nul_id.
+Qed.
+
+(* the launch script given at creation (at most 32 bytes, not ending in NUL) is what
+   LaunchScript() returns; the version field reads "01" *)
+Theorem launch_roundtrip h l :
+  (length l <= 32)%nat -> last l x01 <> x00 -> h_launch h = pad_to 32 l -> launch_of h = l.
+Proof. intros Le L E. unfold launch_of. rewrite E. now apply trim_nul_pad. Qed.
+
+Theorem version_reads_01 h : h_version h = version_bytes -> version_of h = [x30; x31].
+Proof. intros E. unfold version_of. rewrite E. reflexivity. Qed.
+
 (* A name of at most 128 bytes that does not end in NUL is read back as given. *)
 Theorem name_roundtrip d name :
   (length name <= 128)%nat -> last name x01 <> x00 ->
@@ -86,6 +100,14 @@ Proof.
   rewrite !andb_true_iff in T. destruct T as [[[A _] L] _].
   apply bytes_eqb_eq in A. apply Nat.eqb_eq in L. rewrite <- E. split; assumption.
 Qed.
+
+(* PrimaryArch() of a header whose arch field was set from a known architecture name *)
+Theorem primary_arch_roundtrip h name :
+  get_sif_arch name <> arch_unknown -> h_arch h = get_sif_arch name -> primary_arch h = name.
+Proof. intros K E. unfold primary_arch. rewrite E. apply (go_arch_get_sif_arch name K). Qed.
+
+Theorem primary_arch_unknown h : h_arch h = arch_unknown -> primary_arch h = name_unknown.
+Proof. intros E. unfold primary_arch. rewrite E. reflexivity. Qed.
 
 (* and every code of the table is reported under its own name, no two alike *)
 Theorem get_sif_arch_go_arch code :
